@@ -52,7 +52,38 @@ pub fn run(args: &Args) -> Shard {
             sh.prop = "C02".into();
             c02t::run(args, &mut sh)
         }
-        "C05" => c05::run(args, &mut sh),
+        "C05" => {
+            // a replay of a driver-level witness goes straight to the module that produced it
+            let module = args.replay.as_ref().and_then(|r| r.get("module")).and_then(|m| m.as_str()).map(|m| m.to_string());
+            if module.is_none() {
+                c05::run(args, &mut sh);
+            }
+            // Driver-level blocking helpers (blk, console, net receive_wait, vsock wait_for_event, sound pcm_xfer, the
+            // request/response drivers): the same workloads as C14-C17/C20; their device personalities flag
+            // "driver spins while the device is idle and was not notified" as C05/wait_without_notification, which is
+            // this shard's own property (everything else they notice is counted as foreign).
+            if !args.is_miri() && !sh.has_own_violation() && (args.replay.is_none() || module.is_some()) {
+                for m in ["C14", "C15", "C16", "C17", "C20"] {
+                    if module.as_deref().is_some_and(|x| x != m) {
+                        continue;
+                    }
+                    let a2 = Args { prop: m.into(), tier: args.tier.clone(), build: args.build.clone(), seed: args.seed, shard: args.shard, nshards: args.nshards, replay: args.replay.clone(), scale: args.scale.min(2000) };
+                    let before = sh.violations.len();
+                    let ev0 = sh.evaluations;
+                    match m {
+                        "C14" => c14::run(&a2, &mut sh),
+                        "C15" => c15::run(&a2, &mut sh),
+                        "C16" => c16::run(&a2, &mut sh),
+                        "C17" => c17_18::run(&a2, &mut sh),
+                        _ => c20::run(&a2, &mut sh),
+                    }
+                    sh.inc("driver_level_blocking_helper_cases", sh.evaluations - ev0);
+                    for v in sh.violations[before..].iter_mut() {
+                        v.replay.set("module", crate::json::J::s(m));
+                    }
+                }
+            }
+        }
         "C06" => c06::run(args, &mut sh),
         "C10" => c10::run(args, &mut sh),
         "C12" => c12::run(args, &mut sh),
